@@ -18,20 +18,20 @@ COQ_TARGETS = ["Proofs/NormLaws.vo"]
 F = Fraction
 DOC = {  # documented formulas, exact rational arithmetic
     "AlgebraicProduct": lambda a, b: a * b,
-    "BoundedDifference": lambda a, b: max(F(0), a + b - 1),
-    "DrasticProduct": lambda a, b: min(a, b) if max(a, b) == 1 else F(0),
+    "BoundedDifference": lambda a, b: max(0 * a, a + b - 1),
+    "DrasticProduct": lambda a, b: min(a, b) if max(a, b) == 1 else 0 * a,
     "EinsteinProduct": lambda a, b: (a * b) / (2 - (a + b - a * b)),
-    "HamacherProduct": lambda a, b: F(0) if a + b == 0 else (a * b) / (a + b - a * b),
+    "HamacherProduct": lambda a, b: 0 * a if a + b == 0 else (a * b) / (a + b - a * b),
     "Minimum": lambda a, b: min(a, b),
-    "NilpotentMinimum": lambda a, b: min(a, b) if a + b > 1 else F(0),
+    "NilpotentMinimum": lambda a, b: min(a, b) if a + b > 1 else 0 * a,
     "AlgebraicSum": lambda a, b: a + b - a * b,
-    "BoundedSum": lambda a, b: min(F(1), a + b),
-    "DrasticSum": lambda a, b: max(a, b) if min(a, b) == 0 else F(1),
+    "BoundedSum": lambda a, b: min(0 * a + 1, a + b),
+    "DrasticSum": lambda a, b: max(a, b) if min(a, b) == 0 else 0 * a + 1,
     "EinsteinSum": lambda a, b: (a + b) / (1 + a * b),
-    "HamacherSum": lambda a, b: F(1) if a * b == 1 else (a + b - 2 * a * b) / (1 - a * b),
+    "HamacherSum": lambda a, b: 0 * a + 1 if a * b == 1 else (a + b - 2 * a * b) / (1 - a * b),
     "Maximum": lambda a, b: max(a, b),
-    "NilpotentMaximum": lambda a, b: max(a, b) if a + b < 1 else F(1),
-    "NormalizedSum": lambda a, b: (a + b) / max(F(1), a + b),
+    "NilpotentMaximum": lambda a, b: max(a, b) if a + b < 1 else 0 * a + 1,
+    "NormalizedSum": lambda a, b: (a + b) / max(0 * a + 1, a + b),
     "UnboundedSum": lambda a, b: a + b,
 }
 
@@ -53,7 +53,14 @@ def inputs(ctx):
             a = ctx.rng.choice([0.0, 1.0, 5e-324, math.nextafter(1.0, 0.0), 0.5])
             rnd.append((a, ctx.rng.random()) if ctx.rng.random() < 0.5 else (ctx.rng.random(), a))
     special = [(a, b) for a in vlib.SPECIALS + [0.5, 1.0] for b in vlib.SPECIALS + [0.5, 1.0]]
-    return grid, pairs, rnd, special
+    # values at tolerance scale around the branch points (a comparison replaced by a tolerant one shows only there)
+    # and products/sums that underflow or are absorbed
+    eps = [1e-3, 5e-4, 2.0 ** -11, 2.0 ** -12, 1e-6, 1e-9, 2.0 ** -40, 2.0 ** -53, 2.0 ** -60]
+    near = sorted({c + s * e for c in (0.0, 0.5, 1.0) for e in eps for s in (1, -1) if 0.0 <= c + s * e <= 1.0} | {1e-200, 2.0 ** -600, 5e-324, 1e-308, 1e-17})
+    partners = [0.0, 1.0, 0.5, 0.25, 0.75, 1e-200, 2.0 ** -11, 1 - 2.0 ** -11, 0.3]
+    tol_pairs = [(a, b) for a in near for b in partners + [1.0 - a, min(1.0, 1.0 - a + 2.0 ** -11), max(0.0, 1.0 - a - 2.0 ** -11), a]]
+    tol_pairs += [(b, a) for a, b in tol_pairs]
+    return grid, pairs, rnd, special + tol_pairs
 
 
 def run(ctx, build, verdict, ev):
@@ -105,7 +112,8 @@ def run(ctx, build, verdict, ev):
     if mism:
         verdict.add_broken("correspondence", f"norm kernel {mism[0][0]} ({mism[0][1]} mode)", f"model (translated kernel over binary64) and implementation differ on {len(mism)} cases, first: {mism[:5]}")
     # ---- direct oracle on the implementation (failing-input search)
-    nviol = oracle(ctx, verdict, fl, grid)
+    extra = [(a, b) for a, b in special if a == a and b == b and 0.0 <= a <= 1.0 and 0.0 <= b <= 1.0]
+    nviol = oracle(ctx, verdict, fl, grid, extra)
     c = ev["coverage"]
     c["evaluations"] = len(index)
     distinct = {(n, vlib.fkey(a), vlib.fkey(b)) for n, _, a, b, r in index if r == r and 0 < r < 1}
@@ -125,7 +133,7 @@ def build_has_gen(build):
     return not build.translation_errors
 
 
-def oracle(ctx, verdict, fl, grid):
+def oracle(ctx, verdict, fl, grid, extra=()):
     """Documented formula (exact rationals on the dyadic grid) and the norm laws, on the implementation."""
     n = 0
     tol = 1e-12
@@ -169,6 +177,25 @@ def oracle(ctx, verdict, fl, grid):
                 if abs(f(f(a, b), c) - f(a, f(b, c))) > 1e-9:
                     verdict.add_violation(f"{name}:assoc", f"{name} not associative at ({a},{b},{c})", {"norm": name, "a": a, "b": b, "c": c})
                     n += 1
+    # the same point checks on the tolerance-scale / underflow pairs (exact rational formula)
+    for name in TNORMS + SNORMS:
+        norm = getattr(fl, name)()
+        for a, b in extra:
+            with np.errstate(all="ignore"):
+                r = float(norm.compute(a, b))
+            want = float(DOC[name](Fraction(a), Fraction(b)))
+            # at a discontinuity (Drastic*, Nilpotent*) the branch test itself is subject to rounding (a + b == 1.0 in binary64
+            # although the exact sum is not): accept the documented formula read with binary64 arithmetic as well
+            try:
+                want_f = float(DOC[name](a, b))
+            except ZeroDivisionError:
+                want_f = want
+            if not (abs(r - want) <= tol or abs(r - want_f) <= tol):
+                verdict.add_violation(f"{name}:formula", f"{name}.compute({a!r},{b!r}) = {r!r}, documented formula gives {want!r}", {"norm": name, "a": a, "b": b, "got": r, "want": want})
+                n += 1
+            elif name in TNORMS and b == 1.0 and abs(r - a) > tol and a > 2.0 ** -52:
+                verdict.add_violation(f"{name}:identity", f"{name}.compute({a!r},1) = {r!r}", {"norm": name, "a": a, "b": b})
+                n += 1
     for s, t in DUALS:
         S = getattr(fl, s)()
         T = getattr(fl, t)()
